@@ -597,6 +597,41 @@ def localise(e, mapping, subst, worlds, fn):
     return None
 
 
+def culprit_key(culprit):
+    """Mechanism key part: class of the smallest sub-expression on which replace already disagrees."""
+    return type(culprit).__name__
+
+
+def joint_only(e, mapping, subst, worlds, fn):
+    """True when every single pair of the mapping is handled correctly on e and only the joint mapping is not
+    (the pairs interact: substitution is not simultaneous / not single-pass)."""
+    if len(mapping) < 2:
+        return False
+    for k, v in mapping.items():
+        sub1 = {}
+        for t, spec in subst.items():
+            if t is k or t == k:
+                sub1[t] = spec
+        if not sub1:
+            continue
+        try:
+            out = fn(e, {k: v})
+            vs = compare_values(e, out, sub1, worlds[:2])
+        except Exception:
+            return False
+        if any(x.kind in ("disagree", "output-ambiguous") for x in vs) or not any(x.kind == "agree" for x in vs):
+            return False
+    return True
+
+
+def still_contains(x, K):
+    for e in integrands_of(x):
+        for o in subexpressions(e):
+            if o is K or (type(o) is type(K) and o == K):
+                return True
+    return False
+
+
 def describe_mapping(mapping):
     return {safe_str(k, 80) + " #" + type(k).__name__: safe_str(v, 200) for k, v in mapping.items()}
 
@@ -678,8 +713,11 @@ def family_expr(ctx, i, rng):
     if v == "violated":
         bad = next(x for x in vs if x.kind in ("disagree", "output-ambiguous"))
         culprit = localise(e, mapping, subst, worlds, fn) or e
-        ctx.violation(f"C21/value-differs/{skeleton(culprit, 1)}",
-                      f"replace output differs from the input under the field override ({bad.kind}, rel. err {bad.err}, {bad.why}); smallest sub-expression: {safe_str(culprit, 300)}",
+        joint = joint_only(e, mapping, subst, worlds, fn)
+        ctx.violation("C21/value-differs/" + ("pairs-interact/" if joint else "") + culprit_key(culprit),
+                      f"replace output differs from the input under the field override ({bad.kind}, rel. err {bad.err}, {bad.why}); "
+                      + ("every single pair alone is handled correctly, only the joint mapping is not; " if joint else "")
+                      + f"smallest sub-expression: {safe_str(culprit, 300)}",
                       {"input": safe_str(e, 1500), "output": safe_str(out, 1500), "mapping": describe_mapping(mapping), "style": style,
                        "culprit": safe_str(culprit, 600), "world": worlds[0].describe(), "entry": fname})
         return
@@ -748,8 +786,18 @@ def family_form(ctx, i, rng):
         return
     mapping, subst, style, kinds = built
     fn, fname = pick_fn(rng)
+    single_integral = rng.random() < 0.12
     try:
-        out = fn(form, mapping)
+        if single_integral:
+            # an Integral is accepted as well; judge it as the one-integral form
+            itg0 = form.integrals()[0]
+            form = ufl.Form([itg0])
+            out = fn(itg0, mapping)
+            ctx.count("integral_inputs")
+            if type(out).__name__ == "Integral":
+                out = ufl.Form([out])
+        else:
+            out = fn(form, mapping)
     except Exception as ex:
         ctx.count("replace_raised")
         ctx.covered("replace_raised_with", type(ex).__name__ + ": " + str(ex)[:70])
@@ -795,9 +843,9 @@ def family_form(ctx, i, rng):
                 culprit = localise(integrand, mapping, subst, worlds, fn)
                 if culprit is not None:
                     break
-            keyname = skeleton(culprit, 1) if culprit is not None else "form-level"
             ctx.count("case_violated")
-            ctx.violation(f"C21/value-differs/{keyname}" if culprit is not None else "C21/form/value-differs/form-level",
+            joint = culprit is not None and any(joint_only(x, mapping, subst, worlds, fn) for _, x in ins)
+            ctx.violation("C21/value-differs/" + ("pairs-interact/" if joint else "") + culprit_key(culprit) if culprit is not None else "C21/form/value-differs/form-level",
                           f"replace(form) changed group {gk}: {bad.kind}, rel. err {bad.err}, {bad.why}",
                           {"form": safe_str(form, 1500), "output": safe_str(out, 1500), "mapping": describe_mapping(mapping), "group": list(gk),
                            "culprit": safe_str(culprit, 500) if culprit is not None else None, "entry": fname})
@@ -899,7 +947,7 @@ def family_shape(ctx, i, rng):
         ctx.add_distinct(("shape", tuple(sorted(what)), len(mapping), as_form, any(occurs(target, k) for k in mapping), cell, gdim))
         ctx.sample({"family": "shape", "pairs": what, "n_pairs": len(mapping), "on_form": as_form, "raised": type(ex).__name__ + ": " + str(ex)[:80]}, limit=5)
         return
-    ranks = sorted({f"rank{len(tuple(k.ufl_shape))}->rank{len(image_shape(v))}" for k, v in mapping.items() if tuple(k.ufl_shape) != image_shape(v)})
+    ranks = sorted({"same-rank" if len(tuple(k.ufl_shape)) == len(image_shape(v)) else "rank-changing" for k, v in mapping.items() if tuple(k.ufl_shape) != image_shape(v)})
     ctx.violation("C21/shape-changing-accepted/" + "+".join(ranks),
                   f"replace accepted a shape-changing mapping ({what}) and returned {safe_str(out, 200)}",
                   {"input": safe_str(target, 1000), "mapping": describe_mapping(mapping), "pairs": what, "entry": fname,
@@ -980,7 +1028,7 @@ def family_identity(ctx, i, rng):
         ctx.covered("identity_compare_raised", type(ex).__name__ + ": " + str(ex)[:60])
         eq = same_canon = False
     if not (eq and same_canon):
-        ctx.violation(f"C21/identity/changed/{style}/{'form' if as_form else skeleton(target, 1)}",
+        ctx.violation(f"C21/identity/{'changed-by-near-miss-key' if style == 'near-miss' else 'changed'}/{'form' if as_form else 'expr'}",
                       f"replace with a mapping none of whose keys occurs returned something else (==: {eq}, canon-equal: {same_canon})",
                       {"input": safe_str(target, 1200), "output": safe_str(out, 1200), "mapping": describe_mapping(mapping), "entry": fname})
         return
@@ -1146,7 +1194,7 @@ def family_deriv(ctx, i, rng):
             culprit = localise(x, mapping, subst, worlds, fn)
             if culprit is not None:
                 break
-        ctx.violation(f"C21/value-differs/{skeleton(culprit, 1)}" if culprit is not None else f"C21/deriv/value-differs/{how}/{mode}",
+        ctx.violation(f"C21/value-differs/{culprit_key(culprit)}" if culprit is not None else f"C21/deriv/value-differs/{how}",
                       f"replace on a derivative() result differs from the {how} expectation ({bad.kind}, rel. err {bad.err}, {bad.why})",
                       {"input": safe_str(dF, 1500), "output": safe_str(out, 1500), "mapping": describe_mapping(mapping), "mode": mode,
                        "culprit": safe_str(culprit, 500) if culprit is not None else None, "entry": fname})
@@ -1234,7 +1282,7 @@ def family_nonterminal(ctx, i, rng):
     if v1 == "violated":
         culprit = localise(e_p, {p: K}, sub1, worlds, fn) or e_p
         ctx.count("case_violated")
-        ctx.violation(f"C21/value-differs/{skeleton(culprit, 1)}", "replace output differs from the input under the field override (placeholder -> subexpression)",
+        ctx.violation(f"C21/value-differs/{culprit_key(culprit)}", "replace output differs from the input under the field override (placeholder -> subexpression)",
                       {"input": safe_str(e_p, 1500), "output": safe_str(e_K, 1500), "mapping": describe_mapping({p: K})})
         return
     if v1 != "held":
@@ -1270,9 +1318,9 @@ def family_nonterminal(ctx, i, rng):
     v = summarise(ctx, vs)
     if v == "violated":
         bad = next(x for x in vs if x.kind in ("disagree", "output-ambiguous"))
-        left = occurs(out, f2) and not occurs(e_p, f2) and not occurs(Gexpr, f2)
+        left = still_contains(out, K) and not still_contains(Gexpr, K)
         ctx.count("case_violated")
-        ctx.violation(f"C21/nonterminal-key/{type(K).__name__}/" + ("key-left-in-place" if left else "value-differs"),
+        ctx.violation("C21/nonterminal-key/" + ("key-left-in-place" if left else "value-differs"),
                       f"replace(e, {{K: G}}) with K = {safe_str(K, 80)} does not equal e with every K replaced by G ({bad.kind}, rel. err {bad.err}, {bad.why})",
                       {"input": safe_str(e_K, 1500), "output": safe_str(out, 1500), "mapping": describe_mapping(mapping), "placeholder_form": safe_str(e_p, 800), "entry": fname})
         return
